@@ -1,6 +1,7 @@
 package kapacitor
 
 import (
+	"math"
 	"time"
 
 	"github.com/influxdata/kapacitor/edge"
@@ -56,11 +57,19 @@ func c10Tag(v *vrt.T, shapes []int) (string, bool) {
 	return "", false
 }
 
-// c10Same is equality of field values as data (NaN equals NaN, unlike ==).
+// verifSameFloat64 is equality of floats as data: same bit pattern (NaN equals NaN, unlike
+// ==). The engine models it as SMT "=" on floats (engine/sym/intrinsics_c10.go).
+func verifSameFloat64(x, y float64) bool {
+	return math.Float64bits(x) == math.Float64bits(y)
+}
+
+// c10Same is equality of field values as data.
 func c10Same(a, b interface{}) bool {
 	if x, ok := a.(float64); ok {
-		y, ok := b.(float64)
-		return ok && (x == y || (x != x && y != y))
+		if y, ok := b.(float64); ok {
+			return verifSameFloat64(x, y)
+		}
+		return false
 	}
 	return a == b
 }
